@@ -266,7 +266,7 @@ func c06Config(c *Ctx) {
 			}
 			var extra []string
 			for _, d := range domConds(snapWrites[0]) {
-				if common[d] || d == "(s.db.snap != nil)=T" {
+				if common[d] || factIs(d, "(s.db.snap != nil)=T") {
 					continue
 				}
 				extra = append(extra, d)
@@ -295,7 +295,7 @@ func c06Config(c *Ctx) {
 		}) {
 			var extra []string
 			for _, d := range domConds(in) {
-				if d != "(s.snap != nil)=T" && !strings.Contains(d, "UpdateAccount(") {
+				if !factIs(d, "(s.snap != nil)=T") && !strings.Contains(d, "UpdateAccount(") {
 					extra = append(extra, d)
 				}
 			}
@@ -308,7 +308,7 @@ func c06Config(c *Ctx) {
 			dc := domConds(in)
 			ok := hasCond(dc, `^\(s\.snap != nil\)=T$`)
 			for _, d := range dc {
-				if d == "(s.snap != nil)=T" || strings.Contains(d, ".suicided") || strings.Contains(d, ".empty(") || strings.Contains(d, "deleteEmptyObjects") || strings.HasPrefix(d, "next(range(") || strings.Contains(d, "s.stateObjects[") {
+				if factIs(d, "(s.snap != nil)=T") || strings.Contains(d, ".suicided") || strings.Contains(d, ".empty(") || strings.Contains(d, "deleteEmptyObjects") || strings.HasPrefix(d, "next(range(") || strings.Contains(d, "s.stateObjects[") {
 					continue
 				}
 				ok = false
